@@ -1172,7 +1172,9 @@ theorem live_no_duplicates {later : List (List Ev)} {r : EvReq} {evs : List EvPi
   simp only [EvReq.wants, EvReq.inRange, Bool.and_eq_true, decide_eq_true_eq] at hw
   exact hw.1.2
 
-/-- **every reported event was in the queue, selected and behind the cursor at the time of ITS fetch** -/
+/-- **every reported event was in the queue at one of the fetches, selected by the request and in its
+range** (trace-free form; inside `LiveEvents` the fetch is ITS OWN fetch and the event lies behind the
+cursor of that fetch: `FetchOk.sound`) -/
 theorem live_sound {later : List (List Ev)} {r : EvReq} {evs : List EvPiece} (h : LiveEvents later (some r) evs)
     {n sz : Nat} (hm : EvPiece.data n sz ∈ evs) :
     ∃ i x, x ∈ envOf r.buf later i ∧ x.num = n ∧ x.size = sz ∧ r.passes x = true ∧ r.maxSeen < n ∧ n ≤ r.nextMax := by
